@@ -7,6 +7,44 @@ struct Rng(u64);
 impl Rng { fn next(&mut self) -> u64 { self.0 ^= self.0 << 13; self.0 ^= self.0 >> 7; self.0 ^= self.0 << 17; self.0 }
   fn below(&mut self, n: u64) -> u64 { self.next() % n } }
 
+/// the documented kind -> variable table (rustdoc of `summarise_events_to_env`), transcribed by hand
+fn doc_bucket(k: &FileEventKind) -> &'static str {
+    match k {
+        FileEventKind::Create(_) => "CREATED",
+        FileEventKind::Modify(ModifyKind::Metadata(_)) => "META_CHANGED",
+        FileEventKind::Remove(_) => "REMOVED",
+        FileEventKind::Modify(ModifyKind::Name(_)) => "RENAMED",
+        FileEventKind::Modify(ModifyKind::Data(_)) | FileEventKind::Access(AccessKind::Close(AccessMode::Write)) => "WRITTEN",
+        _ => "OTHERWISE_CHANGED",
+    }
+}
+
+/// C17 on the real output: every (kind, path) of the batch is listed in the variable of its kind, joining
+/// COMMON with the entry gives the path back, entries are strictly increasing in byte order, nothing else is listed
+fn oracle(events: &[Event], env: &HashMap<&str, std::ffi::OsString>) -> String {
+    use std::os::unix::ffi::OsStrExt;
+    let common = env.get("COMMON").map(PathBuf::from);
+    let join = |e: &[u8]| -> PathBuf { let e = std::path::Path::new(std::ffi::OsStr::from_bytes(e)); match &common { Some(c) => c.join(e), None => e.to_path_buf() } };
+    let mut wanted: HashMap<&str, Vec<PathBuf>> = HashMap::new();
+    for ev in events {
+        let paths: Vec<PathBuf> = ev.tags.iter().filter_map(|t| if let Tag::Path { path, .. } = t { Some(path.clone()) } else { None }).collect();
+        for t in &ev.tags { if let Tag::FileEventKind(k) = t { for p in &paths { wanted.entry(doc_bucket(k)).or_default().push(p.clone()); } } }
+    }
+    for (var, val) in env.iter().filter(|(k, _)| **k != "COMMON") {
+        let entries: Vec<&[u8]> = val.as_bytes().split(|b| *b == b':').collect();
+        for w in entries.windows(2) { if w[0] >= w[1] { return format!("{var}: entries not strictly increasing in byte order"); } }
+        let Some(want) = wanted.get(var) else { return format!("{var} is set but no event has a kind of that variable") };
+        // COMMON set: the property's join identity; not set: the entry is the path itself
+        for e in &entries { if !want.iter().any(|p| join(e) == *p || (common.is_some() && e.is_empty() && Some(p) == common.as_ref())) { return format!("{var}: entry {:?} does not come from any event of that kind", String::from_utf8_lossy(e)); } }
+    }
+    for (var, want) in &wanted {
+        let Some(val) = env.get(var) else { return format!("{var} missing although an event has that kind") };
+        let entries: Vec<&[u8]> = val.as_bytes().split(|b| *b == b':').collect();
+        for p in want { if !entries.iter().any(|e| join(e) == *p || (e.is_empty() && Some(p) == common.as_ref())) { return format!("{var}: path {} not listed (or does not join back)", p.display()); } }
+    }
+    String::new()
+}
+
 fn main() {
     let seed: u64 = std::env::args().nth(1).and_then(|s| s.parse().ok()).unwrap_or(1);
     let n: usize = std::env::args().nth(2).and_then(|s| s.parse().ok()).unwrap_or(1000);
@@ -43,7 +81,8 @@ fn main() {
         let mut vars: Vec<String> = env.iter().filter(|(k, _)| **k != "COMMON").map(|(k, v)| format!("{k}={}", v.to_string_lossy())).collect();
         vars.sort();
         let simple = verif::events_to_simple_format(&events).unwrap();
+        let oracle = oracle(&events, &env);
         writeln!(cases, "SUM\t{}", enc.join("\x1d")).unwrap();
-        writeln!(outs, "COMMON={}|{}||{}", common, vars.join("|"), simple.lines().collect::<Vec<_>>().join(";")).unwrap();
+        writeln!(outs, "COMMON={}|{}||{}{}", common, vars.join("|"), simple.lines().collect::<Vec<_>>().join(";"), if oracle.is_empty() { String::new() } else { format!("\t!{oracle}") }).unwrap();
     }
 }
